@@ -9,3 +9,4 @@ import BqlVerif.Properties.C08
 import BqlVerif.Properties.C09
 import BqlVerif.Properties.C04
 import BqlVerif.Properties.C05
+import BqlVerif.Properties.C17
